@@ -211,6 +211,26 @@ def drive(tier):
     reprs += [bytes(r.choice([0, 0x51, 0x60, 0x4f, 0x61, 0x6a, 0xac, 0xb1, 0xb2, 0xba, 0xfc, 0xff, 1, 2]) for _ in range(r.randrange(1, 8))) for _ in range(120)]
     for s_ in reprs:
         R.add("x.repr", {"s": b2l(s_)}, {"text": text(repr(CScript(s_)))})
+    # ---- hash helpers (Hash160 always goes through the bundled pure-Python RIPEMD-160) and text renderings
+    from bitcoin.core import Hash, Hash160
+    from bitcoin.core.contrib.ripemd160 import ripemd160
+    for n in list(range(0, 70)) + [111, 118, 119, 120, 121, 127, 128, 129, 183, 184, 247, 248, 1000]:
+        b_ = gen.rbytes(r, n)
+        R.add("x.hash", {"b": b2l(b_)}, {"h256": b2l(Hash(b_)), "h160": b2l(Hash160(b_)), "rmd": b2l(ripemd160(b_))})
+    for i_ in range(40):
+        dt = gen.gen_tx(r, nin=1, nout=1, witness="none", lens=[0, 1, 25])
+        if i_ % 5 == 0:
+            dt["vin"][0]["hash"], dt["vin"][0]["n"] = bytes(32), 0xffffffff
+        if i_ % 7 == 0:
+            dt["vout"][0]["value"] = r.choice([-1, -5 * 10 ** 8, 0, 1, 21 * 10 ** 14])
+        dt["vin"][0]["script"] = r.choice([b"", b"\x51", b"\x02\xab\xcd\xac", bytes(CScript([gen.rbytes(r, 33)]))])
+        dt["vout"][0]["script"] = r.choice([b"", b"\x6a", b"\x76\xa9\x14" + gen.rbytes(r, 20) + b"\x88\xac"])
+        tx_ = gen.build_tx(dt, bool(i_ & 1))
+        dh = gen.gen_header(r)
+        hd = gen.build_header(dh)
+        R.add("x.textof", {"txin": gen.proj_txin(tx_.vin[0]), "txout": gen.proj_txout(tx_.vout[0]), "hdr": gen.header_json(dh)},
+              {"opstr": text(str(tx_.vin[0].prevout)), "oprepr": text(repr(tx_.vin[0].prevout)), "inrepr": text(repr(tx_.vin[0])),
+               "outrepr": text(repr(tx_.vout[0])), "hdrrepr": text(repr(hd))})
     # ---- address conveniences
     from bitcoin.wallet import CBitcoinAddress as _A, P2SHBitcoinAddress as _P2SH, P2PKHBitcoinAddress as _P2PKH
     CLS = {"P2PKHBitcoinAddress": "P2PKH", "P2SHBitcoinAddress": "P2SH", "P2WPKHBitcoinAddress": "P2WPKH", "P2WSHBitcoinAddress": "P2WSH"}
